@@ -355,6 +355,22 @@ def mc_property(v, tier, seed, name, prof, fields=mc_suite.ALL_FIELDS, noids=Fal
     return n
 
 
+def rand_runs_disagree(runs, combos=None):
+    """the runs of one program (same predicates, different strategy / cache mode) must agree on Ok/Err and, when Ok, on the set of
+    evaluated states"""
+    kinds = [r["hdr"].split()[2].split(":")[0] for r in runs]
+    combos = combos or [" ".join(r["hdr"].split()[:2]) for r in runs]
+    if len(set(kinds)) > 1:
+        return f"the runs disagree on Ok/Err: {[r['hdr'].split()[2] for r in runs]} for {combos}"
+    if kinds and kinds[0] == "result=ok":
+        sets = [keyset(r) for r in runs]
+        for k in range(1, len(sets)):
+            if sets[k] != sets[0]:
+                return (f"runs {combos[0]} and {combos[k]} evaluate different sets of states ({len(sets[0])} vs {len(sets[k])}); "
+                        f"e.g. {sorted(sets[0] ^ sets[k])[:1]}")
+    return None
+
+
 def rand_cache_probe(v, tier, seed, name="rand_cache_modes"):
     """C11, implementation against itself: processes whose handlers store `ctx.rand()` draws in their outbox.  Under the model
     checker the draws are seeded from the state, so states the checker treats as equal must still have identical futures: the
@@ -401,18 +417,9 @@ def rand_cache_probe(v, tier, seed, name="rand_cache_modes"):
         kinds = [r["hdr"].split()[2].split(":")[0] for r in runs]
         ncmp += 1
         nrand += any(re.search(r"=[0-9a-f]{16}", l) for l in a)
-        bad = None
-        if len(set(kinds)) > 1:
-            bad = f"the runs disagree on Ok/Err: {[r['hdr'].split()[2] for r in runs]} for {combos}"
-        elif kinds and kinds[0] == "result=ok":
-            sets = [keyset(r) for r in runs]
-            for k in range(1, len(sets)):
-                if sets[k] != sets[0]:
-                    bad = (f"runs {combos[0]} and {combos[k]} evaluate different sets of states ({len(sets[0])} vs {len(sets[k])}); "
-                           f"e.g. {sorted(sets[0] ^ sets[k])[:1]}")
-                    break
+        bad = rand_runs_disagree(runs, combos)
         if bad and nviol < 3:
-            v.violation(f"{name}-{nm}.txt", f"# property {v.pid}: states the checker treats as equal do not have identical futures when handlers use ctx.rand(): {bad}\n"
+            v.violation(f"{name}-{nm}.txt", f"# property {v.pid}: handlers use ctx.rand(), whose draws under the checker are a function of the state, so the strategies and cache modes must agree: {bad}\n"
                         f"# replay: /verif/check {v.pid} --replay <this file>\n" + "".join(l + "\n" for l in lines))
         nviol += bool(bad)
     v.coverage.setdefault(name, {}).update({"programs": ncmp, "programs_with_draws_in_states": nrand, "violations": nviol,
@@ -521,6 +528,17 @@ def gen_crash_merge(rng, tier):
 
 def replay(v, path):
     lines = [l.strip() for l in open(path) if l.strip() and not l.startswith("#")]
+    if any(l.startswith("rule") and " R:" in l for l in lines):
+        # ctx.rand() under the checker is not modelled: implementation against itself (rand_cache_probe)
+        from .common import run_blocks, VH
+        out, rc, err = run_blocks([VH, "mc"], [mc_suite.block("x", lines)], 60)
+        a = out.get("x", [])
+        print("implementation:"); print("\n".join(l[:300] for l in a[:60]))
+        bad = rand_runs_disagree(mc_suite.split_runs(a))
+        if bad:
+            print("DISAGREE:", bad)
+            v.violation("replay.txt", open(path).read())
+        return
     i, m = run_pair("mc", [mc_suite.block("x", lines)], jobs=1, stall=20)
     d = mc_suite.compare(i.get("x", []), m.get("x", []), lines)
     print("implementation:"); print("\n".join(l[:300] for l in i.get("x", [])[:40]))
